@@ -83,6 +83,7 @@ def subtree(rng, gate, trace_dir):
         on = gate_cfg(rng, "reflection", True)
         off = copy.deepcopy(on)
         off["t3"]["allow_reflection"] = False
+        off["t3"]["reflection"]["log"] = rng.random() < 0.5  # every knob of the closed subtree away from its default
         return off, on
     if gate == "scheduler":
         on = gate_cfg(rng, "scheduler", True)
